@@ -458,12 +458,117 @@ func post_decodeSuback(data []byte, res0 Message) bool {
 //@ assume decodeUnsubscribe iface
 //@ assume decodeUnsuback iface
 
-// @ verify DecodePacket pre=pre_DecodePacket post=post_DecodePacket_refuse props=C09 makebound=1048576
-// @ loop decodeHeader 0 inv inv_decodeHeader modifies=*
+// the fixed header has its own contract (below); here it is a recorded call. io.ReadFull fills the buffer it is given.
+//@ assume decodeHeader iface
+//@ assume io.ReadFull iface modifies=buf
+
+// @ verify DecodePacket pre=pre_DecodePacket post=post_DecodePacket_refuse,post_DecodePacket_header,post_DecodePacket_empty,post_DecodePacket_body,post_DecodePacket_dispatch props=C09,C16 makebound=1048576
 func pre_DecodePacket(rdr Reader, maxMessageSize int64) bool {
 	return rdr != nil && 0 <= maxMessageSize && maxMessageSize <= 1048576
 }
-func inv_decodeHeader(rdr Reader) bool { return rdr != nil }
+
+// DecodePacket as a whole (C16): the fixed header decides everything - an error ends it; PINGREQ / PINGRESP /
+// DISCONNECT carry no body; otherwise exactly `remaining length` bytes are read (and only if that is within the
+// limit) and handed, with the header flags, to the decoder of THAT packet type and to no other.
+func post_DecodePacket_header(rdr Reader, res0 Message, res1 error) bool {
+	h := vs.TraceFind("decodeHeader")
+	if h != 0 || vs.TraceCount("decodeHeader") != 1 {
+		return false
+	}
+	return vs.TraceRet[error](h, 3) == nil || (res0 == nil && res1 == vs.TraceRet[error](h, 3) && vs.TraceLen() == 1)
+}
+func specHdrOK() bool    { return vs.TraceRet[error](0, 3) == nil }
+func specHdrType() uint8 { return vs.TraceRet[uint8](0, 2) }
+func specHdrEmptyType() bool {
+	t := specHdrType()
+	return t == TypeOfPingreq || t == TypeOfPingresp || t == TypeOfDisconnect
+}
+func post_DecodePacket_empty(rdr Reader, res0 Message, res1 error) bool {
+	if !specHdrOK() || !specHdrEmptyType() {
+		return true
+	}
+	if res1 != nil || vs.TraceLen() != 1 {
+		return false
+	}
+	switch specHdrType() {
+	case TypeOfPingreq:
+		_, ok := res0.(*Pingreq)
+		return ok
+	case TypeOfPingresp:
+		_, ok := res0.(*Pingresp)
+		return ok
+	}
+	_, ok := res0.(*Disconnect)
+	return ok
+}
+func post_DecodePacket_body(rdr Reader, maxMessageSize int64, res0 Message, res1 error) bool {
+	if !specHdrOK() || specHdrEmptyType() {
+		return true
+	}
+	size := vs.TraceRet[uint32](0, 1)
+	r := vs.TraceFind("io.ReadFull")
+	if int64(size) > maxMessageSize { // refused before anything is read or allocated
+		return r < 0 && vs.TraceLen() == 1 && res0 == nil && res1 == ErrMessageTooLarge
+	}
+	if r != 1 || vs.TraceCount("io.ReadFull") != 1 || len(vs.TraceArg[[]byte](r, 1)) != int(size) {
+		return false
+	}
+	return vs.TraceRet[error](r, 1) == nil || (vs.TraceLen() == 2 && res0 == nil && res1 == vs.TraceRet[error](r, 1))
+}
+func specDecoderFor(t uint8) int { // position of the call of the decoder of packet type t (-1: not called)
+	switch t {
+	case TypeOfConnect:
+		return vs.TraceFind("decodeConnect")
+	case TypeOfConnack:
+		return vs.TraceFind("decodeConnack")
+	case TypeOfPublish:
+		return vs.TraceFind("decodePublish")
+	case TypeOfPuback:
+		return vs.TraceFind("decodePuback")
+	case TypeOfPubrec:
+		return vs.TraceFind("decodePubrec")
+	case TypeOfPubrel:
+		return vs.TraceFind("decodePubrel")
+	case TypeOfPubcomp:
+		return vs.TraceFind("decodePubcomp")
+	case TypeOfSubscribe:
+		return vs.TraceFind("decodeSubscribe")
+	case TypeOfSuback:
+		return vs.TraceFind("decodeSuback")
+	case TypeOfUnsubscribe:
+		return vs.TraceFind("decodeUnsubscribe")
+	case TypeOfUnsuback:
+		return vs.TraceFind("decodeUnsuback")
+	}
+	return -1
+}
+func post_DecodePacket_dispatch(rdr Reader, maxMessageSize int64, res0 Message, res1 error) bool {
+	if !specHdrOK() || specHdrEmptyType() || int64(vs.TraceRet[uint32](0, 1)) > maxMessageSize || vs.TraceRet[error](1, 1) != nil {
+		return true
+	}
+	t := specHdrType()
+	if t == 0 || t >= 15 { // reserved types: no decoder runs, no packet comes out
+		return res0 == nil && vs.TraceLen() == 2
+	}
+	d := specDecoderFor(t)
+	// the decoder of this type, and nothing else, ran after the body was read; it got a body of the announced length
+	// (recorded arguments are frozen copies: that it is the very buffer io.ReadFull filled is not expressible here)
+	if d != 2 || vs.TraceLen() != 3 || len(vs.TraceArg[[]byte](d, 0)) != int(vs.TraceRet[uint32](0, 1)) {
+		return false
+	}
+	hdr := vs.TraceRet[Header](0, 0)
+	switch t { // the flag-carrying types (and CONNACK's unused one) get the header of THIS packet
+	case TypeOfConnack, TypeOfPublish, TypeOfPubrel, TypeOfSubscribe, TypeOfUnsubscribe:
+		if vs.TraceArg[Header](d, 1) != hdr {
+			return false
+		}
+	}
+	switch t { // and the result is what that decoder returned
+	case TypeOfConnect, TypeOfPublish, TypeOfSubscribe, TypeOfUnsubscribe:
+		return res0 == vs.TraceRet[Message](d, 0) && res1 == vs.TraceRet[error](d, 1)
+	}
+	return res0 == vs.TraceRet[Message](d, 0) && res1 == nil
+}
 func post_DecodePacket_refuse(rdr Reader, maxMessageSize int64, res0 Message, res1 error) bool {
 	// whenever a body was read, it was read into a buffer no larger than the limit (io.ReadFull's second argument)
 	r := vs.TraceFind("io.ReadFull")
@@ -559,4 +664,79 @@ func post_decodeUnsubscribe(data []byte, hdr Header, res0 Message, res1 error) b
 	}
 	u, ok := res0.(*Unsubscribe)
 	return ok && u.Header == hdr && u.MessageID == specU16(data, 0) && specTupleChain(u.Topics, data, 0, len(data))
+}
+
+// ---------------------------------------------------------------------------------------------------------
+// 3.9 SUBACK as the broker emits it: packet identifier, then the return codes, one byte each, in order - for any
+// number of them that fits the encode buffer (loop invariant over the range index; unbounded).
+
+// @ verify (*Suback).EncodeTo pre=pre_Suback_EncodeTo post=post_Suback_EncodeTo_head,post_Suback_EncodeTo_codes props=C16
+// @ loop (*Suback).EncodeTo 0 inv inv_Suback_EncodeTo modifies=buf
+func pre_Suback_EncodeTo(s *Suback, w io.Writer) bool {
+	return s != nil && w != nil && len(s.Qos) <= MaxMessageSize-maxHeaderSize-2
+}
+func inv_Suback_EncodeTo(s *Suback, buf []byte, offset int, rangeindex int) bool {
+	i := rangeindex + 1 // the codes written so far
+	return len(buf) == MaxMessageSize-maxHeaderSize && 0 <= i && i <= len(s.Qos) && offset == 2+i &&
+		specU16(buf, 0) == s.MessageID &&
+		vs.Forall(0, i, func(j int) bool { return buf[2+j] == s.Qos[j] })
+}
+func post_Suback_EncodeTo_head(s *Suback, w io.Writer, res0 int, res1 error) bool {
+	b := vs.TraceBytes(0, 1)
+	n := 2 + len(s.Qos)
+	return specOneWrite(res0, res1) && specPacketHead(b, TypeOfSuback, nil, n) && specU16(b, specBodyAt(n)) == s.MessageID
+}
+func post_Suback_EncodeTo_codes(s *Suback, w io.Writer) bool {
+	b := vs.TraceBytes(0, 1)
+	at := specBodyAt(2+len(s.Qos)) + 2
+	return vs.Forall(0, len(s.Qos), func(j int) bool { return b[at+j] == s.Qos[j] })
+}
+
+// ---------------------------------------------------------------------------------------------------------
+// 2.2 Fixed header as the broker READS it: first byte = type (high nibble) and, for the four packet types that
+// carry them, DUP / QoS / RETAIN; then the remaining length, least significant 7-bit group first, continuation
+// bit on all but the last digit. Stated over the bytes the reader handed out (ghost trace), for headers of up to
+// four length digits - the maximum MQTT 3.1.1 2.2.3 allows - hence the loop is explored to that bound (stated
+// bounded: a fifth digit is outside this contract; the code itself keeps reading).
+
+// @ verify decodeHeader pre=pre_decodeHeader post=post_decodeHeader_err,post_decodeHeader_type,post_decodeHeader_length props=C16
+// @ loop decodeHeader 0 unroll 4 bounded for=decodeHeader
+func pre_decodeHeader(rdr Reader) bool { return rdr != nil }
+
+func specAllRead(n int) bool { // the first n bytes were all delivered
+	return vs.Forall(0, n, func(i int) bool { return vs.TraceRet[error](i, 1) == nil })
+}
+func post_decodeHeader_err(rdr Reader, res3 error) bool { // an error of the reader is the error of the header
+	n := vs.TraceCount("ReadByte")
+	return n >= 1 && n == vs.TraceLen() && specAllRead(n-1) && res3 == vs.TraceRet[error](n-1, 1)
+}
+func post_decodeHeader_type(rdr Reader, res0 Header, res2 uint8, res3 error) bool {
+	if res3 != nil {
+		return true
+	}
+	b0 := vs.TraceRet[byte](0, 0)
+	typ := b0 >> 4
+	if typ == TypeOfPublish || typ == TypeOfSubscribe || typ == TypeOfUnsubscribe || typ == TypeOfPubrel {
+		return res2 == typ && res0.DUP == (b0&0x08 != 0) && res0.QOS == (b0>>1)&0x03 && res0.Retain == (b0&0x01 != 0)
+	}
+	return res2 == typ && res0 == Header{}
+}
+func post_decodeHeader_length(rdr Reader, res1 uint32, res3 error) bool {
+	if res3 != nil {
+		return true
+	}
+	k := vs.TraceCount("ReadByte") - 1 // number of length digits
+	if k < 1 || k > 4 {
+		return false
+	}
+	var v uint32
+	ok := true
+	for i := 0; i < 4; i++ {
+		if i < k {
+			d := vs.TraceRet[byte](1+i, 0)
+			v |= uint32(d&0x7f) << (7 * uint(i))
+			ok = ok && (d&0x80 != 0) == (i < k-1) // continuation bit exactly on the non-final digits
+		}
+	}
+	return ok && res1 == v
 }
